@@ -69,7 +69,8 @@ CLAIMED = {
  "C17": dict(text="Theorems: bin b collects exactly the modes with (2b-1)^2 <= 4|k|^2 < (2b+1)^2 (b = round|k|, half-open bins), bins are disjoint, every mode inside the Nyquist sphere lies in exactly one "
                   "bin 0..N/2 and modes outside in none (all N, D, k; integer square-root argument); 4|k|^2 is never an odd square, so the floating comparison cannot sit on a boundary; the amplitude "
                   "quantity of a stored mode of a cos is a and the power weights are the Parseval weights wgt|u_hat|^2/(2N^2D). Whole spectra (power/amplitude x sum/average, multi-channel) are "
-                  "compared with the extracted model on every run (exact rationals on float magnitudes).",
+                  "compared with the extracted model on every run (exact rationals on float magnitudes). The per-mode quantity, the scaling modes and the bin limits of get_spectrum are re-translated from "
+                  "the source on every run (harness/translate/spectrum.py; the rest of the function is compared as text) and proved to be the model's.",
              note="The Parseval identity itself (sum over stored modes with the multiplicities 1/2 = N^D sum of squares) is proved for real fields in every dimension in the C16 development (Metrics/ParsevalRealD.v) and checked on the real code; |.| of the FFT is an input "
                   "of the model (sqrt is not modelled).",
              technique="Rocq proof (integer arithmetic incl. Z.sqrt, field identities) + exact correspondence of whole spectra", design="§4 C17"),
